@@ -26,7 +26,7 @@ GUARD_V1 = "node_count_on_this_level > 0 && node_count_on_this_level >= *PARALLE
 # either order, `> 0` / `!= 0` / `>= 1` for "not zero".  Still nothing is guessed: every alternative is listed.
 _HALF = r"self\.nodes\.len\(\) (?:/ 2|>> 1)"
 LEAF_V1_RE = re.compile(
-    r"^\{ let (?P<a>\w+) = " + _HALF + r"; (?:let (?P<b>\w+) = (?P=a)\.checked_add\(index\)\?; "
+    r"^\{ let (?P<a>\w+) = " + _HALF + r"; (?:let (?P<b>\w+) = (?:(?P=a)\.checked_add\(index\)|index\.checked_add\((?P=a)\))\?; "
     r"self\.nodes\.get\((?P=b)\)\.copied\(\)|self\.nodes\.get\((?P=a)\.checked_add\(index\)\?\)\.copied\(\)) \}$")
 LEAF_V0_RE = re.compile(
     r"^\{ let (?P<a>\w+) = " + _HALF + r"; (?:self\.nodes\.get\((?P=a) \+ index\)\.copied\(\)|"
